@@ -11,9 +11,18 @@ import (
 func CanonToken(kind byte, s []byte) string {
 	switch kind {
 	case TString:
+		// a ",string" float: the tolerated exponent spelling one level down ("1e-07" == "1e-7")
+		if len(s) > 4 && bytes.IndexAny(s, "eE") > 0 && IsJSONNumber(string(s[1:len(s)-1])) {
+			return `"` + CanonToken(TNumber, s[1:len(s)-1]) + `"`
+		}
 		if !bytes.Contains(s, []byte(`\u000`)) {
 			return string(s)
 		}
+		// the same alternative spellings one level down (a ",string" payload that itself contains
+		// the escape): \\u0008 == \\b, \\u000c == \\f
+		s = bytes.ReplaceAll(s, []byte(`\\u0008`), []byte(`\\b`))
+		s = bytes.ReplaceAll(s, []byte(`\\u000c`), []byte(`\\f`))
+		s = bytes.ReplaceAll(s, []byte(`\\u000C`), []byte(`\\f`))
 		var sb strings.Builder
 		for i := 0; i < len(s); {
 			if s[i] == '\\' && i+1 < len(s) {
